@@ -95,6 +95,7 @@ type epochArm struct {
 
 // Unit is one verification unit: a function body (with inlined callees) and its obligations.
 type Unit struct {
+	siteOrd map[string]map[token.Pos]int
 	eng         *Engine
 	u           *Universe
 	fn          *ssa.Function
@@ -723,6 +724,23 @@ func (un *Unit) iteChain(sts []State, vals []Term) Term {
 		res = Ite(sts[i].R, vals[i], res)
 	}
 	return res
+}
+
+// siteTag names a call site by the ordinal of its position among the sites of the same callee in this unit ("c1", "c2", ...),
+// so that obligation names survive edits that only move lines.
+func (un *Unit) siteTag(callee string, pos token.Pos) string {
+	if un.siteOrd == nil {
+		un.siteOrd = map[string]map[token.Pos]int{}
+	}
+	m := un.siteOrd[callee]
+	if m == nil {
+		m = map[token.Pos]int{}
+		un.siteOrd[callee] = m
+	}
+	if _, ok := m[pos]; !ok {
+		m[pos] = len(m) + 1
+	}
+	return fmt.Sprintf("c%d", m[pos])
 }
 
 // havocFresh: heap `name` changes only at references allocated after this point.
